@@ -193,7 +193,11 @@ func GenQueries(g *Gen, n int) []Query {
 			if len(g.Zones) > 0 {
 				x = append(Name{}, g.Zones[r.Intn(len(g.Zones))]...)
 			}
-			x = x.Child(unsafeLabels[r.Intn(len(unsafeLabels))])
+			if r.Chance(1, 3) {
+				x = x.Child(hiLabels[r.Intn(len(hiLabels))])
+			} else {
+				x = x.Child(unsafeLabels[r.Intn(len(unsafeLabels))])
+			}
 			if r.Chance(1, 2) {
 				x = x.Child(g.label())
 			}
@@ -221,6 +225,15 @@ func GenQueries(g *Gen, n int) []Query {
 	}
 	for i := 0; i < n; i++ {
 		name, cls := pickName()
+		if i < 3 {
+			// always a few queries at and below delegation points / NS owners
+			for _, l := range g.Lines {
+				if l.Kind == "&" && len(l.Recs) > 0 && g.R.Chance(1, 2) {
+					name = unpackName(hlib.Unints(l.Recs[0].Owner)).Child(g.label())
+					cls = "belowns"
+				}
+			}
+		}
 		if len(name.Pack()) > 255 {
 			name = name[1:]
 		}
@@ -318,4 +331,15 @@ func unmarshalPair(raw map[string]json.RawMessage, p *PairCase) error {
 		return err
 	}
 	return json.Unmarshal(b, p)
+}
+
+
+func unpackName(b []byte) Name {
+	n := Name{}
+	for i := 0; i < len(b) && b[i] != 0; {
+		l := int(b[i])
+		n = append(n, append([]byte{}, b[i+1:i+1+l]...))
+		i += 1 + l
+	}
+	return n
 }
